@@ -1,16 +1,8 @@
 # Top-level build of the verification framework (MANIFEST.setup_cmd = make setup)
-.PHONY: setup coq model clean
-setup: coq model
+.PHONY: setup clean
+setup:
 	python3 tools/setup.py
-
-coq:
-	python3 tools/gen_consts.py
-	cd coq && coq_makefile -f _CoqProject -o Makefile && timeout 3000 $(MAKE) -j16
-
-model: coq
-	cp coq/model.ml coq/model.mli ocaml/
-	cd ocaml && ocamlfind ocamlopt -w -a -inline 100 model.mli model.ml modelrun.ml -o modelrun
 
 clean:
 	-cd coq && $(MAKE) clean
-	rm -f coq/Makefile coq/Makefile.conf coq/model.ml coq/model.mli ocaml/model.ml ocaml/model.mli ocaml/modelrun ocaml/*.cm* ocaml/*.o
+	rm -rf coq/Makefile coq/Makefile.conf coq/model_*.ml coq/model_*.mli ocaml/_b_* ocaml/modelrun_*
